@@ -144,6 +144,10 @@ class Obj:
         if self.cfg == "tebd":
             if self.obj.step is None:
                 return None
+            # a query of the current chain state between compute calls must
+            # not influence what is recorded afterwards
+            self.obj.get_current_density_matrix(0)
+            self.obj.get_current_density_matrix((0, 2))
             res = self.obj.get_results()
             arrs = [np.array(res["dynamics"][s].states).reshape(
                 len(res["time"]), -1) for s in (0, 1, 2, (0, 2))]
